@@ -34,10 +34,10 @@ ARENA_FAMILIES = {
     "fill": dict(
         fns=["memset_s", "memset16_s", "memset32_s", "memzero_s", "memzero16_s", "memzero32_s",
              "strzero_s", "strset_s", "strnset_s", "wcsset_s", "wcsnset_s"],
-        quick=dict(N=6, K=3, BosMode=0), thorough=dict(N=8, K=5, BosMode=1), props={"C01", "C02", "C03", "C05", "C06", "C08"}),
+        quick=dict(N=6, K=3, BosMode=1), thorough=dict(N=8, K=5, BosMode=1), props={"C01", "C02", "C03", "C05", "C06", "C08"}),
     "strfld": dict(
         fns=["strcpyfld_s", "strcpyfldin_s", "strcpyfldout_s"],
-        quick=dict(N=6, K=3, BosMode=0), thorough=dict(N=8, K=4, BosMode=1), props={"C01", "C02", "C03", "C04", "C05", "C06", "C07", "C08"}),
+        quick=dict(N=6, K=3, BosMode=1), thorough=dict(N=8, K=4, BosMode=1), props={"C01", "C02", "C03", "C04", "C05", "C06", "C07", "C08"}),
     "query2": dict(
         fns=["strcmp_s", "strcasecmp_s", "strcoll_s", "strcmpfld_s", "wcscmp_s", "wcsncmp_s", "wcsicmp_s", "wcscoll_s", "strnatcmp_s", "strnatcasecmp_s", "wcsnatcmp_s", "wcsnaticmp_s", "memcmp_s", "memcmp16_s", "memcmp32_s", "wmemcmp_s",
              "strstr_s", "strcasestr_s", "wcsstr_s", "strpbrk_s", "strspn_s", "strcspn_s", "strfirstdiff_s", "strfirstsame_s",
@@ -51,10 +51,10 @@ ARENA_FAMILIES = {
     "query1": dict(
         fns=["strnlen_s", "wcsnlen_s", "strisalphanumeric_s", "strisascii_s", "strisdigit_s", "strishex_s", "strislowercase_s",
              "strismixedcase_s", "strisuppercase_s", "strchr_s", "strrchr_s", "strfirstchar_s", "strlastchar_s", "memchr_s", "memrchr_s", "strispassword_s"],
-        quick=dict(N=6, K=2, BosMode=0, QA=1), thorough=dict(N=8, K=3, BosMode=1, QA=1), props={"C01", "C02", "C05", "C10"}, flavours=("slack",)),
+        quick=dict(N=6, K=2, BosMode=1, QA=1), thorough=dict(N=8, K=3, BosMode=1, QA=1), props={"C01", "C02", "C05", "C10"}, flavours=("slack",)),
     "xform": dict(
         fns=["strtolowercase_s", "strtouppercase_s", "wcslwr_s", "wcsupr_s", "strljustify_s", "strremovews_s", "strnterminate_s"],
-        quick=dict(N=6, K=3, BosMode=0), thorough=dict(N=8, K=4, BosMode=1), props={"C01", "C02", "C03", "C05", "C06"}),
+        quick=dict(N=6, K=3, BosMode=1), thorough=dict(N=8, K=4, BosMode=1), props={"C01", "C02", "C03", "C05", "C06"}),
 }
 
 
